@@ -37,3 +37,17 @@ def sites_under(w, entries, damage_only=False):
                     continue
             out.append(s)
     return out, scope
+
+
+# Sites where ONE error kind is deliberately turned into a value because the absence of the file is
+# a legal state of the archive; every other error kind is still propagated there. (function, callee)
+NOT_FOUND_IS_A_VALUE = {
+    ("jsonio::read_json", "transport::Transport::read"): "a missing json file is Ok(None): callers decide (BANDTAIL absent = incomplete band; head/header absent = reported by the caller)",
+    ("index::IndexRead::read_hunk", "transport::Transport::read"): "a hunk that is listed but gone is Ok(None); try_next / referenced_blocks turn that into an error",
+    ("transport::Transport::is_file", "transport::Transport::metadata"): "is_file: a path that does not exist is simply not a file",
+    ("archive::Archive::create", "transport::Transport::list_dir"): "creating an archive in a directory that does not exist yet creates it",
+}
+
+
+def allowed_kind_conversion(site):
+    return site.detail.startswith("an Err path") and (site.body.root, site.callee_short()) in NOT_FOUND_IS_A_VALUE
